@@ -169,24 +169,24 @@ Init == page \in Pages /\ done = FALSE
 Next == ~done /\ done' = TRUE /\ UNCHANGED page
 Spec == Init /\ [][Next]_<<page, done>>
 
-Ideal == Run(Render(page), {})
-Laws == /\ Admissible(page)
-        /\ ~Ideal.oof
-        /\ Equiv(Ideal.stack[1], TreeOf(page))
-Emit ==
-  LET a == Render(page)
-      r == IF Known = {} THEN Ideal ELSE Run(a, Known)
-  IN PrintT(<<"CASE", ToJson([page |-> page, text |-> a, mt |-> r.stack[1], cov |-> r.cov])>>)
-GenInv == done \/ (Laws /\ Emit)
+\* one evaluation of the machine per structure; r0 = ideal run, r = as-is run
+LawOf(r0) == /\ Admissible(page)
+             /\ ~r0.oof
+             /\ Equiv(r0.stack[1], TreeOf(page))
+Case(a, r, law) == [page |-> page, text |-> a, mt |-> r.stack[1], cov |-> r.cov, law |-> law]
+GenInv ==
+  done \/ LET a == Render(page)
+               r0 == Run(a, {})
+               r == IF Known = {} THEN r0 ELSE Run(a, Known)
+           IN LawOf(r0) /\ PrintT(<<"CASE", ToJson(Case(a, r, TRUE))>>)
 \* FILE universe: pages come from outside; inadmissible ones are skipped, the law is
 \* reported instead of asserted
-EmitF ==
-  LET a == Render(page)
-      r == IF Known = {} THEN Ideal ELSE Run(a, Known)
-  IN IF Admissible(page)
-     THEN PrintT(<<"CASE", ToJson([page |-> page, text |-> a, mt |-> r.stack[1], cov |-> r.cov, law |-> Laws])>>)
-     ELSE PrintT(<<"SKIP", ToJson([text |-> a])>>)
-GenInvF == done \/ EmitF
+GenInvF ==
+  done \/ LET a == Render(page)
+               r0 == Run(a, {})
+               r == IF Known = {} THEN r0 ELSE Run(a, Known)
+           IN IF Admissible(page) THEN PrintT(<<"CASE", ToJson(Case(a, r, LawOf(r0)))>>)
+              ELSE PrintT(<<"SKIP", ToJson([text |-> a])>>)
 \* Demo: with the found behaviour of table_cell_fn the law fails (a caption followed by a data cell)
 DemoAsIs == done \/ Equiv(Run(Render(page), AllParserDevs).stack[1], TreeOf(page))
 =============================================================================
